@@ -100,6 +100,9 @@ class Built:
         #: 0 = plain conditions/captures; 1 = coroutine functions (suspending once); 2 = plain functions
         #: returning an awaitable
         self.async_conds = 0
+        #: who asks for OLD when snapshots are in effect: 0 = postconditions and their error factories (mode
+        #: factory_kw), 1 = only the error factories, 2 = nobody
+        self.post_old = 0
         self.errors = {}  # type: Dict[Tuple[Any, ...], Any]   # label -> class / instance
         self.names = {}  # type: Dict[str, Tuple[Any, ...]]   # condition __name__ -> label
 
@@ -260,10 +263,11 @@ def _decorate(rt: Built, prog: Prog, lvl: int, fn: Callable[..., Any]) -> Callab
     lev = prog.levels[lvl]
     cparams = ("x",) if prog.kind in X_KINDS else ("self",)
     eff = effective(prog, lvl)
-    pparams = cparams + ("result",) + (("OLD",) if eff.snaps else ())
+    pparams = cparams + ("result",) + (("OLD",) if eff.snaps and rt.post_old == 0 else ())
+    eparams = cparams + ("result",) + (("OLD",) if eff.snaps and rt.post_old in (0, 1) else ())
     for i in range(lev.post):
         fn = icontract.ensure(
-            _cond(rt, "post", lvl, i, pparams, is_async=False), **_error_kwargs(rt, ("post", lvl, i), pparams)
+            _cond(rt, "post", lvl, i, pparams, is_async=False), **_error_kwargs(rt, ("post", lvl, i), eparams)
         )(fn)
     for i in range(lev.snaps):
         fn = icontract.snapshot(_capture(rt, lvl, i, cparams), name="s_{}_{}".format(lvl, i))(fn)
@@ -271,7 +275,24 @@ def _decorate(rt: Built, prog: Prog, lvl: int, fn: Callable[..., Any]) -> Callab
         fn = icontract.require(
             _cond(rt, "pre", lvl, i, cparams), **_error_kwargs(rt, ("pre", lvl, i), cparams)
         )(fn)
+    if lev.foreign:
+        fn = _foreign(fn, prog.is_async)
     return fn
+
+
+def _foreign(fn: Callable[..., Any], is_async: bool) -> Callable[..., Any]:
+    """An ordinary third-party decorator written with functools.wraps."""
+    import functools
+
+    if is_async:
+        @functools.wraps(fn)
+        async def wrapper(*args: Any, **kwargs: Any) -> Any:
+            return await fn(*args, **kwargs)
+    else:
+        @functools.wraps(fn)
+        def wrapper(*args: Any, **kwargs: Any) -> Any:  # type: ignore
+            return fn(*args, **kwargs)
+    return wrapper
 
 
 _CHECK_ON = {
@@ -282,11 +303,12 @@ _CHECK_ON = {
 
 
 def build(prog: Prog, rt: Optional[RT], use_dbc: bool = True, root_init: bool = True,
-          error_mode: Optional[str] = None, async_conds: int = 0) -> Built:
+          error_mode: Optional[str] = None, async_conds: int = 0, post_old: int = 0) -> Built:
     """Create the real program.  May raise what icontract raises at definition time."""
     assert prog.valid(), prog
     built = Built(prog, rt, error_mode or (rt.error_mode if rt is not None else "factory"))
     built.async_conds = async_conds
+    built.post_old = post_old
     rt = built  # the helpers below take the Built (static part); run-time state is built.rt
     kind = prog.kind
     if kind == "func":
@@ -345,18 +367,18 @@ _BUILT_CACHE = {}  # type: Dict[Tuple[Any, ...], Any]
 
 
 def get_built(prog: Prog, error_mode: str, use_dbc: bool = True, root_init: bool = True,
-              async_conds: int = 0) -> Any:
+              async_conds: int = 0, post_old: int = 0) -> Any:
     """Build (once per process, natively) the program for concrete selectors; returns Built or the
     exception instance that icontract raised at definition time."""
     from vfw.hlib import untraced
 
-    key = (prog, error_mode, use_dbc, root_init, async_conds)
+    key = (prog, error_mode, use_dbc, root_init, async_conds, post_old)
     with untraced():
         hit = _BUILT_CACHE.get(key)
         if hit is None:
             try:
                 hit = build(prog, None, use_dbc=use_dbc, root_init=root_init, error_mode=error_mode,
-                            async_conds=async_conds)
+                            async_conds=async_conds, post_old=post_old)
             except (TypeError, ValueError) as err:
                 hit = err
             _BUILT_CACHE[key] = hit
